@@ -29,6 +29,15 @@ func VerifC06Leave() {
 		m.DataTo(&tr)
 		return tr.EntityComponentTypeId
 	}()
+	// a second component type: the leaver's entities carry one component of each, and the leaver may have
+	// deleted the first one of its first entity itself before leaving
+	tid2 := func() uint32 {
+		m := m1.expectOne(&hagallpb.EntityComponentTypeAddRequest{Type: hagallpb.MsgType_MSG_TYPE_ENTITY_COMPONENT_TYPE_ADD_REQUEST, Timestamp: vts(), RequestId: 9, EntityComponentTypeName: "second-type"},
+			hagallpb.MsgType_MSG_TYPE_ENTITY_COMPONENT_TYPE_ADD_RESPONSE, "setup.type_add2")
+		var tr hagallpb.EntityComponentTypeAddResponse
+		m.DataTo(&tr)
+		return tr.EntityComponentTypeId
+	}()
 	nEnt := 2
 	if verifnd.Tier() == 1 {
 		nEnt = 3
@@ -46,6 +55,8 @@ func VerifC06Leave() {
 		if attach {
 			lv.expectOne(&hagallpb.EntityComponentAddRequest{Type: hagallpb.MsgType_MSG_TYPE_ENTITY_COMPONENT_ADD_REQUEST, Timestamp: vts(), RequestId: 10, EntityComponentTypeId: tid, EntityId: ids[i], Data: verifnd.Bytes(8)},
 				hagallpb.MsgType_MSG_TYPE_ENTITY_COMPONENT_ADD_RESPONSE, "setup.comp_add")
+			lv.expectOne(&hagallpb.EntityComponentAddRequest{Type: hagallpb.MsgType_MSG_TYPE_ENTITY_COMPONENT_ADD_REQUEST, Timestamp: vts(), RequestId: 10, EntityComponentTypeId: tid2, EntityId: ids[i], Data: verifnd.Bytes(8)},
+				hagallpb.MsgType_MSG_TYPE_ENTITY_COMPONENT_ADD_RESPONSE, "setup.comp_add2")
 			setter := lv
 			if attachMode == 2 {
 				setter = m2
@@ -56,6 +67,12 @@ func VerifC06Leave() {
 			lv.expectOne(&odalpb.AssetInstanceAddRequest{Type: odalpb.MsgType_MSG_TYPE_ODAL_ASSET_INSTANCE_ADD_REQUEST, Timestamp: vts(), RequestId: 12, EntityId: ids[i], AssetId: "asset"},
 				hagallpb.MsgType(odalpb.MsgType_MSG_TYPE_ODAL_ASSET_INSTANCE_ADD_RESPONSE), "setup.asset")
 		}
+	}
+	deletedOne := false
+	if attach && verifnd.Bool() {
+		deletedOne = true
+		lv.expectOne(&hagallpb.EntityComponentDeleteRequest{Type: hagallpb.MsgType_MSG_TYPE_ENTITY_COMPONENT_DELETE_REQUEST, Timestamp: vts(), RequestId: 13, EntityComponentTypeId: tid, EntityId: ids[0]},
+			hagallpb.MsgType_MSG_TYPE_ENTITY_COMPONENT_DELETE_RESPONSE, "setup.comp_delete")
 	}
 	// an entity of a remaining member, with attachments, must be untouched
 	keep := m1.addEntity(false, symPose())
@@ -142,6 +159,18 @@ func VerifC06Leave() {
 		present := handed.entIdx(ids[k]) >= 0
 		verifnd.Assert(verifnd.Iff(pers[k], present), "C06.persistent_survive_others_removed", howName)
 		hasC := handed.compIdx(tid, ids[k]) >= 0
+		if deletedOne && k == 0 {
+			verifnd.Assert(!hasC, "C06.deleted_component_stays_deleted", howName)
+			hasC = pers[k] // as far as the first type is concerned; the second type decides below
+		}
+		hasC2 := handed.compIdx(tid2, ids[k]) >= 0
+		if attach {
+			verifnd.Assert(verifnd.Implies(pers[k], hasC2), "C06.components_follow_entity", howName, "second_type_kept_with_persistent")
+			verifnd.Assert(verifnd.Implies(hasC2, pers[k]), "C06.components_follow_entity", howName, "second_type_removed_with_entity")
+			verifnd.Assert(verifnd.Iff(pers[k], hasC2), "C06.components_follow_entity", howName, "second_type_iff")
+		} else {
+			verifnd.Assert(!hasC2, "C06.no_attachments_appear", howName)
+		}
 		hasA := handed.actIdx(ids[k], "act") >= 0
 		hasI := handed.assetIdx(ids[k]) >= 0
 		if attach {
